@@ -132,6 +132,7 @@ def compare(cases, impl, mod):
                 fl = p[4]
                 stats["eq_true"] += fl[0] == "1"; stats["neg_true"] += fl[1] == "1"
                 stats["sub_true"] += fl[2] == "1"; stats["cbt_true"] += fl[3] == "1"
+                stats["mapkey_equal_true"] = stats.get("mapkey_equal_true", 0) + (len(fl) > 6 and fl[6] == "1")
             elif p[0] == "B":
                 stats["builds"] += 1
         if nt:
